@@ -219,6 +219,10 @@ func writeSTL(wg *sync.WaitGroup, path string) (chan<- []*sdf.Triangle3, error) 
 				d.Vertex3[2] = float32(t[2].Z)
 				if err := binary.Write(buf, binary.LittleEndian, &d); err != nil {
 					fmt.Printf("%s\n", err)
+					// Keep reading until the channel is closed, otherwise the
+					// renderer blocks forever on its next channel write.
+					for range c {
+					}
 					return
 				}
 				count++
